@@ -217,7 +217,16 @@ impl<G: DictReg> DictScen<G> {
         let mut dig = Digest::default();
         let mut pop: Vec<Dr<G>> = vec![fresh()];
         let prop = self.prop;
-        let fail = |o: &str, step: usize, d: String| Some((format!("C{prop:02}/dict/{o}"), step, d));
+        let allowed = move |o: &str| -> bool {
+            match prop {
+                1 => matches!(o, "just-pushed-item-differs" | "just-pushed-differs" | "push-refused-inside-statistics" | "refused-representable-input" | "merge-panicked"),
+                2 => matches!(o, "earlier-item-differs"),
+                _ => true,
+            }
+        };
+        let fail = move |o: &str, step: usize, d: String| -> Option<(String, usize, String)> {
+            if allowed(o) { Some((format!("C{prop:02}/dict/{o}"), step, d)) } else { Some((format!("foreign/{o}"), step, d)) }
+        };
 
         macro_rules! reread {
             ($ci:expr, $all:expr, $step:expr) => {{
@@ -567,7 +576,16 @@ impl<G: DictReg> Scenario for DictScen<G> {
         ops
     }
     fn exec(&self, ops: &[DOp]) -> SOut {
+        let mut out = {
         self.run(ops)
+    };
+        if let Some(f) = &out.fail {
+            if f.0.starts_with("foreign/") {
+                out.foreign = Some(f.0.clone());
+                out.fail = None;
+            }
+        }
+        out
     }
     fn op_json(&self, op: &DOp) -> J {
         match op {
